@@ -102,14 +102,7 @@ def fwdWith (k : Consts R) (lon lat : R) : R × R :=
   if !k.variant then
     let u := k.A * Scalar.atan2 (S_ * k.c0 + V * k.s0) cblon / k.B
     (v * k.cc + u * k.sc + k.FE, u * k.cc - v * k.sc + k.FN)
-  -- Variant B and/or Laborde: the special case
-  else if k.ninety then
-    let u : R :=
-      if Scalar.beq lon k.lambda0 then 0.0
-      else k.A * Scalar.atan2 (S_ * k.c0 + V * k.s0) cblon / k.B
-        - Scalar.copysign k.uc k.latc * Scalar.signum (k.lonc - lon)
-    (v * k.cc + u * k.sc + k.FE, u * k.cc - v * k.sc + k.FN)
-  -- the general case
+  -- Variant B and/or Laborde
   else
     let u := k.A * Scalar.atan2 (S_ * k.c0 + V * k.s0) cblon / k.B - Scalar.copysign k.uc k.latc
     (v * k.cc + u * k.sc + k.FE, u * k.cc - v * k.sc + k.FN)
